@@ -33,9 +33,9 @@ FN_BY_KIND = {
     "int": [["inc", 1], ["double", 0], ["const", 3], ["neg", 0], ["identity", 0], ["wrong", 0], ["to_missing", 0]],
     "float": [["inc", 1], ["const", 2.5], ["identity", 0], ["wrong", 0]],
     "str": [["suffix", "x"], ["const", "k"], ["identity", 0], ["wrong", 0], ["to_missing", 0]],
-    "list": [["append_copy", 0], ["empty", 0], ["identity", 0], ["wrong", 0]],
-    "set": [["empty", 0], ["identity", 0], ["wrong", 0]],
-    "dict": [["empty", 0], ["identity", 0], ["wrong", 0]],
+    "list": [["append_copy", 0], ["rebuild", 0], ["rebuild", 0], ["empty", 0], ["identity", 0], ["wrong", 0]],
+    "set": [["rebuild", 0], ["rebuild", 0], ["empty", 0], ["identity", 0], ["wrong", 0]],
+    "dict": [["rebuild", 0], ["rebuild", 0], ["empty", 0], ["identity", 0], ["wrong", 0]],
     "spec": [["identity", 0], ["with_first", 0], ["wrong", 0], ["existing", 0], ["existing", 1]],
     "other": [["identity", 0], ["wrong", 0], ["to_missing", 0]],
 }
@@ -113,6 +113,15 @@ def make_fn(world, name, param, cur=None):
             return MISSING
         if name == "append_copy":
             return list(v) + list(v)[:1]
+        if name == "rebuild":
+            # a NEW container of the same type that holds the SAME item objects (a pure transform)
+            if isinstance(v, dict):
+                return dict(v)
+            if isinstance(v, (list, set)):
+                return type(v)(v)
+            if hasattr(v, "keys") and hasattr(v, "_dict"):
+                return type(v)(list(v))
+            return v
         if name == "empty":
             return type(v)() if isinstance(v, (list, set, dict)) or hasattr(v, "keys") else v
         if name == "with_first":
@@ -253,6 +262,8 @@ def gen_scalar_call(src, world, cname, attr, inplace, bad_rate):
     a = world.attrs(cname)[attr]
     T = a["type"]
     m = src.choice(8)
+    if T[0] == "spec":
+        m = src.pick([0, 1, 3, 3, 3, 4, 5, 6, 7])  # nested spec values: the keyword-merging update_<a> form matters most
     k = gen_flags(src, inplace)
     if m <= 2:  # with_<a>(v)
         v = src.pick([["$missing"], ["$unchanged"]]) if src.chance(1, 12) else gen_arg_value(src, T, bad_rate)
@@ -423,6 +434,8 @@ def gen_op(src, world, cname=None, inplace=None, bad_rate=(1, 4), allow=("scalar
         kinds += ["top"]
     if "deepcopy" in allow:
         kinds += ["deepcopy"]
+    if "unmanaged" in allow and src.chance(1, 8):
+        return {"t": "set", "attr": "side_note", "v": src.pick([1, "s"])} if src.chance(2, 3) else {"t": "del", "attr": "side_note"}
     nested_targets = [n for n, a in attrs.items() if a["type"][0] == "spec" or (is_collection(a["type"]) and elem_type(a["type"])[0] == "spec")]
     if "nested" in allow and nested_targets and inplace is not False:
         kinds += ["nested"]
